@@ -141,6 +141,7 @@ func c03(x *runCtx) {
 	for _, c := range cfgs {
 		c03RefusedDone(x, c)
 	}
+	c03ReplaceInterrupted(x)
 }
 
 // c03RefusedDone: a TO2 that is honest up to and including the service-info rounds and then sends a Done the
